@@ -351,6 +351,6 @@ PARTS = [
          rule="GF(2) proof of primitivity for all seven polynomials + period of the reference transition matrix"),
     Part("agree", e_agree, kind="custom", custom=custom_agree, shards=16, quick_shards=12, exhaustive=True,
          rule="every chunk of the state cycle compared bit-for-bit with the reference incl. hand-over state; one evaluation per state"),
-    Part("api", e_api, s_api(), quick=600, thorough=5000, shards=8, rule="non-trivial: >=2 splits and a non-default seed"),
-    Part("errors", e_err, s_err, quick=200, thorough=1000, shards=2, rule="unsupported orders, bad len values, default len/seed"),
+    Part("api", e_api, s_api(), quick=600, thorough=20000, shards=8, rule="non-trivial: >=2 splits and a non-default seed"),
+    Part("errors", e_err, s_err, quick=200, thorough=4000, shards=2, rule="unsupported orders, bad len values, default len/seed"),
 ]
